@@ -51,6 +51,9 @@ type geneCase struct {
 	Cs         int          `json:"cds_start_sel"`
 	Ce         int          `json:"cds_end_sel"`
 	Pos        int          `json:"pos"`
+	// FOrient: orientation of a feature the caller puts on the transcript (a gene.TranscriptFeature built as a
+	// struct value, as UTR5/CDS/UTR3 are built by the package): one more level of the nesting
+	FOrient int8 `json:"f_orient"`
 }
 
 // generic location features -------------------------------------------------
@@ -580,6 +583,58 @@ func checkNesting(w *world, c geneCase, model []span) *vlib.Failure {
 			}
 		}
 	}
+	// a feature put on the transcript by the caller is one more level: its own orientation multiplies in
+	if tOri := w.t.(feat.Orienter).Orientation(); tOri != feat.NotOriented {
+		tf := &gene.TranscriptFeature{Transcript: w.t, Offset: 0, Length: 1, Orient: feat.Orientation(c.FOrient), FeatName: "user"}
+		for i, ref := range refs {
+			want := int(c.FOrient)
+			if i > 0 {
+				want *= int(feat.OrientationWithin(w.t, ref))
+			}
+			if got := feat.OrientationWithin(tf, ref); int(got) != want {
+				return vlib.Failf("orientation-within", "a feature of orientation %d on the transcript: OrientationWithin(feature, ref level %d) = %d want %d (orientations %v)", c.FOrient, i, got, want, oris)
+			}
+		}
+		tB, tR := feat.BaseOrientationOf(w.t)
+		wantO, wantRef := feat.Orientation(c.FOrient)*tB, tR
+		if c.FOrient == 0 {
+			wantO, wantRef = feat.NotOriented, feat.Feature(w.t) // "the first orientable ... feature"
+		}
+		if gotO, gotRef := feat.BaseOrientationOf(tf); gotO != wantO || gotRef != wantRef {
+			return vlib.Failf("base-orientation", "a feature of orientation %d on the transcript: BaseOrientationOf = %d, %v want %d, %v (transcript: %d, %v)", c.FOrient, gotO, gotRef, wantO, wantRef, tB, tR)
+		}
+		// the chain may also end at the gene: a gene that was given no chromosome still has its orientation
+		g2 := &gene.Gene{ID: "g2", Orient: feat.Orientation(c.GOrient)}
+		t2 := &gene.CodingTranscript{ID: "t2", Loc: g2, Orient: tOri}
+		want2 := tOri
+		if c.GOrient != 0 {
+			want2 *= feat.Orientation(c.GOrient)
+		}
+		if gotO, gotRef := feat.BaseOrientationOf(t2); gotO != want2 || gotRef != feat.Feature(g2) {
+			return vlib.Failf("base-orientation", "transcript (%d) on a gene (%d) without a chromosome: BaseOrientationOf = %d, %v want %d and the gene", tOri, c.GOrient, gotO, gotRef, want2)
+		}
+		if len(model) > 0 {
+			var ex []gene.Exon
+			for _, sp := range model {
+				ex = append(ex, gene.Exon{Transcript: t2, Offset: sp.Off, Length: sp.Len})
+			}
+			if err := t2.SetExons(ex...); err != nil {
+				return vlib.Failf("set-acceptance", "SetExons(%v) on a transcript whose gene has no chromosome: %v", model, err)
+			}
+			L := t2.Len()
+			cs := mod(c.Cs, L+1)
+			ce := cs + mod(c.Ce, L-cs+1)
+			t2.CDSstart, t2.CDSend = cs, ce
+			u5, u3 := t2.UTR5(), t2.UTR3()
+			first, last := u5, u3
+			if want2 < 0 {
+				first, last = u3, u5
+			}
+			if first.Start() != 0 || first.End() != cs || last.Start() != ce || last.End() != L {
+				return vlib.Failf("utr-cds-tiling", "transcript (%d) on a gene (%d) without a chromosome, CDS [%d,%d) of %d: 5'UTR [%d,%d) and 3'UTR [%d,%d) are not in orientation order", tOri, c.GOrient, cs, ce, L, u5.Start(), u5.End(), u3.Start(), u3.End())
+			}
+		}
+	}
 	if got := feat.OrientationWithin(w.t, nil); got != feat.NotOriented {
 		return vlib.Failf("orientation-within", "OrientationWithin(transcript, nil) = %d", got)
 	}
@@ -628,6 +683,7 @@ func gen(t *rapid.T) geneCase {
 		GOffset: rapid.IntRange(0, 5000).Draw(t, "g-offset"), GOrient: int8(rapid.SampledFrom([]int{1, -1, 1, -1, 0}).Draw(t, "g-orient")),
 		ChromStart: rapid.SampledFrom([]int{0, 0, 10}).Draw(t, "chrom-start"),
 		Cs:         rapid.IntRange(0, 300).Draw(t, "cs"), Ce: rapid.IntRange(0, 300).Draw(t, "ce"), Pos: rapid.IntRange(0, 999).Draw(t, "pos")}
+	c.FOrient = int8(rapid.SampledFrom([]int{1, -1, 0}).Draw(t, "f-orient"))
 	nr := rapid.IntRange(0, 3).Draw(t, "nregions")
 	for i := 0; i < nr; i++ {
 		c.Regions = append(c.Regions, regionSpec{Offset: rapid.IntRange(0, 1000).Draw(t, "r-offset"),
@@ -653,6 +709,10 @@ func gen(t *rapid.T) geneCase {
 				for k := range o.Exons {
 					o.Exons[k].Off += d
 				}
+			case 3: // overlap by an exon of no length, strictly inside another one
+				if e := o.Exons[rapid.IntRange(0, len(o.Exons)-1).Draw(t, "empty-in")]; e.Len >= 2 {
+					o.Exons = append(o.Exons, span{Off: e.Off + rapid.IntRange(1, e.Len-1).Draw(t, "empty-at")})
+				}
 			}
 			o.Exons = rapid.Permutation(o.Exons).Draw(t, "set-order")
 			if want, ok := setAccepts(o.Exons); ok {
@@ -665,7 +725,13 @@ func gen(t *rapid.T) geneCase {
 			end := model[len(model)-1].end()
 			for k := 0; k < n; k++ {
 				var s span
-				switch rapid.IntRange(0, 5).Draw(t, "add-class") {
+				switch rapid.IntRange(0, 6).Draw(t, "add-class") {
+				case 6: // an exon of no length strictly inside an existing one: it overlaps
+					e := model[rapid.IntRange(0, len(model)-1).Draw(t, "empty-exon")]
+					s = span{Off: e.Off + 1, Len: 1}
+					if e.Len >= 2 {
+						s = span{Off: e.Off + rapid.IntRange(1, e.Len-1).Draw(t, "empty-off")}
+					}
 				case 0, 1: // beyond the current end
 					s = span{Off: end + rapid.IntRange(0, 30).Draw(t, "beyond"), Len: rapid.IntRange(1, 20).Draw(t, "alen")}
 					end = s.end()
@@ -747,6 +813,13 @@ func classes(c geneCase) []string {
 			maxExons = len(model)
 		}
 	}
+	for _, o := range c.Ops {
+		for _, e := range o.Exons {
+			if e.Len == 0 {
+				l = append(l, "exon-of-no-length-inside-another")
+			}
+		}
+	}
 	if maxExons >= 3 {
 		l = append(l, "exons>=3")
 		nt = true
@@ -776,7 +849,7 @@ func classes(c geneCase) []string {
 
 func TestGeneModels(t *testing.T) {
 	vlib.Run(t, vlib.Prop[geneCase]{Name: "gene-model-histories", Checks: 5000, Thorough: 480000, Gen: gen, Check: check, Classes: classes,
-		MinFrac: map[string]float64{"exons>=3": 0.3, "add-rejected/spare-capacity/sorts-before-existing": 0.03, "set-rejected": 0.15, "coding": 0.3, "reverse-base-orientation": 0.2, "re-oriented-between-queries": 0.08}})
+		MinFrac: map[string]float64{"exons>=3": 0.3, "add-rejected/spare-capacity/sorts-before-existing": 0.03, "set-rejected": 0.15, "coding": 0.3, "reverse-base-orientation": 0.2, "re-oriented-between-queries": 0.08, "exon-of-no-length-inside-another": 0.1}})
 }
 
 // deep chains: positions compose additively up to the documented limit of 1000 links
